@@ -38,7 +38,7 @@ func Main(args []string) int {
 	}
 	label := args[0]
 	var salt, failIf, sleepIf, omit, omitIf, touch, rm, rmIf string
-	fail, sleepMs := 0, 0
+	fail, sleepMs, sleepAfterMs := 0, 0, 0
 	for i := 1; i < len(args); i++ {
 		next := func() string {
 			i++
@@ -56,6 +56,8 @@ func Main(args []string) int {
 			failIf = next()
 		case "--sleep":
 			sleepMs, _ = strconv.Atoi(next())
+		case "--sleepafter":
+			sleepAfterMs, _ = strconv.Atoi(next())
 		case "--sleepif":
 			sleepIf = next()
 		case "--omit":
@@ -151,6 +153,9 @@ func Main(args []string) int {
 				return 68
 			}
 		}
+	}
+	if sleepAfterMs > 0 {
+		time.Sleep(time.Duration(sleepAfterMs) * time.Millisecond)
 	}
 	if touch != "" {
 		_ = os.MkdirAll(filepath.Dir(filepath.Join(root, touch)), 0755)
